@@ -322,7 +322,7 @@ def plan(tier, seed):
     for dtn in ("float32", "float64"):
         for s in range(4):
             t.append(("values", dict(kind="structured", dtype=dtn, shard=s, nshards=4, seed=seed)))
-        nrand, nsh = (4000, 4) if tier == "quick" else (4000000, 16)
+        nrand, nsh = (24000, 6) if tier == "quick" else (4000000, 16)
         for s in range(nsh):
             t.append(("values", dict(kind="random", dtype=dtn, shard=s, nshards=nsh, n=nrand // nsh, seed=seed)))
     return t
